@@ -1,1 +1,3 @@
 import Netpoll.Buf.Model
+import Netpoll.Props.C18
+import Netpoll.Tie.Manager
